@@ -2,11 +2,14 @@
 
 use crate::ev::Ctx;
 
+#[cfg(feature = "data")]
 pub mod c01;
 pub mod c02;
 pub mod c03;
 pub mod c04;
+#[cfg(feature = "data")]
 pub mod c05;
+#[cfg(feature = "data")]
 pub mod c06;
 pub mod c07;
 pub mod c08;
@@ -18,21 +21,29 @@ pub mod c11;
 pub mod c12;
 pub mod c13;
 pub mod c14;
+#[cfg(feature = "data")]
 pub mod c15;
+#[cfg(feature = "data")]
 pub mod c16;
+#[cfg(feature = "data")]
 pub mod c17;
+#[cfg(feature = "data")]
 pub mod c18;
+#[cfg(feature = "data")]
 pub mod c19;
 
 pub type Runner = fn(&mut Ctx);
 
 pub fn lookup(prop: &str) -> Option<Runner> {
     Some(match prop {
+        #[cfg(feature = "data")]
         "C01" => c01::run,
         "C02" => c02::run,
         "C03" => c03::run,
         "C04" => c04::run,
+        #[cfg(feature = "data")]
         "C05" => c05::run,
+        #[cfg(feature = "data")]
         "C06" => c06::run,
         "C07" => c07::run,
         "C08" => c08::run,
@@ -42,10 +53,15 @@ pub fn lookup(prop: &str) -> Option<Runner> {
         "C12" => c12::run,
         "C13" => c13::run,
         "C14" => c14::run,
+        #[cfg(feature = "data")]
         "C15" => c15::run,
+        #[cfg(feature = "data")]
         "C16" => c16::run,
+        #[cfg(feature = "data")]
         "C17" => c17::run,
+        #[cfg(feature = "data")]
         "C18" => c18::run,
+        #[cfg(feature = "data")]
         "C19" => c19::run,
         _ => return None,
     })
